@@ -328,8 +328,11 @@ def scanFrom {σ} (env : Env) (prog : σ → Prog σ) (fuel : Nat) : Nat → Sc 
 
 def scanFuel (env : Env) : Nat := 4 * env.size + 16
 
+/-- bound on the number of calls of `Next` for one file (each byte queues at most four events) -/
+def scanCalls (env : Env) : Nat := 5 * scanFuel env
+
 def scanAll {σ} (env : Env) (prog : σ → Prog σ) (root : σ) : List Lexeme × End :=
-  let r := scanFrom env prog (scanFuel env) (scanFuel env) (Sc.init root) []
+  let r := scanFrom env prog (scanFuel env) (scanCalls env) (Sc.init root) []
   (r.1, r.2.1)
 
 end JsightVerif.Model
